@@ -283,8 +283,8 @@ Theorem chain_correct : forall code p pend subject cases pc els f,
   forall st r t vs ps,
     match sel_sem f p subject (option_map fst els) (strip4 cases) st with
     | Done st' => exists n r', stepn n code (boundary pc r t (subject :: vs) ps st) = MRunning (boundary pend r' t (subject :: vs) ps st')
-    | Failed x q st' => exists n s', stepn n code (boundary pc r t (subject :: vs) ps st) = MError x q s' /\ mscreen s' = screen st'
-    | StepZero q st' => exists n s', stepn n code (boundary pc r t (subject :: vs) ps st) = MStepZero q s' /\ mscreen s' = screen st'
+    | Failed x q st' => exists n s', stepn n code (boundary pc r t (subject :: vs) ps st) = MError x q s' /\ of_mio (mscreen s') = screen st'
+    | StepZero q st' => exists n s', stepn n code (boundary pc r t (subject :: vs) ps st) = MStepZero q s' /\ of_mio (mscreen s') = screen st'
     | OutOfFuel => True
     end.
 Proof.
@@ -312,7 +312,7 @@ Proof.
     cbn [chain_blocks] in HB. destruct HB as (Hb & HBrest).
     assert (S1 : stepn 1 code (boundary pc0 r t (subject :: vs) ps st) = MRunning (boundary (S pc0) r t (subject :: vs) ps st)).
     { rewrite stepn_one. unfold Machine.step, boundary. cbn [Machine.pc]. rewrite Hl. reflexivity. }
-    pose proof (header_ok code subject p (S pc0) cs bs (bs + lb + 1) Hh (vars st) (screen st) r t vs ps) as A.
+    pose proof (header_ok code subject p (S pc0) cs bs (bs + lb + 1) Hh (vars st) (to_mio (screen st)) r t vs ps) as A.
     cbv beta in A.
     destruct (any_case subject cs (vars st) p) as [[[|] e1]|[x q]].
     + destruct A as (n & r1 & Hn).
@@ -321,8 +321,8 @@ Proof.
       specialize (Hb f (mk_state e1 (screen st)) r1 t (subject :: vs) ps).
       destruct (blockf f b (mk_state e1 (screen st))) as [st2|x q st2|q st2|].
       * destruct Hb as (m & r2 & Hm). exists (1 + n + m + 1), r2. rewrite !stepn_add, S1.
-        change (stepn n code (boundary (S pc0) r t (subject :: vs) ps st)) with (stepn n code (mk_m (S pc0) (r :: t) (subject :: vs) ps (vars st) (screen st) false)).
-        rewrite Hn. change (mk_m bs (r1 :: t) (subject :: vs) ps e1 (screen st) false) with (boundary bs r1 t (subject :: vs) ps (mk_state e1 (screen st))).
+        change (stepn n code (boundary (S pc0) r t (subject :: vs) ps st)) with (stepn n code (mk_m (S pc0) (r :: t) (subject :: vs) ps (vars st) (to_mio (screen st)) false)).
+        rewrite Hn. change (mk_m bs (r1 :: t) (subject :: vs) ps e1 (to_mio (screen st)) false) with (boundary bs r1 t (subject :: vs) ps (mk_state e1 (screen st))).
         rewrite Hm. rewrite stepn_one. unfold Machine.step, boundary. cbn [Machine.pc]. rewrite Hj. reflexivity.
       * destruct Hb as (m & s' & Hm & Hd). exists (1 + n + m), s'. split; [|exact Hd]. rewrite stepn_add, S2. exact Hm.
       * destruct Hb as (m & s' & Hm & Hd). exists (1 + n + m), s'. split; [|exact Hd]. rewrite stepn_add, S2. exact Hm.
@@ -336,7 +336,7 @@ Proof.
       * destruct IH as (m & s' & Hm & Hd). exists (1 + n + m), s'. split; [|exact Hd]. rewrite stepn_add, S2. exact Hm.
       * destruct IH as (m & s' & Hm & Hd). exists (1 + n + m), s'. split; [|exact Hd]. rewrite stepn_add, S2. exact Hm.
       * exact I.
-    + destruct A as (n & s' & Hn & Hd). exists (1 + n), s'. split; [|exact Hd]. rewrite stepn_add, S1. exact Hn.
+    + destruct A as (n & s' & Hn & Hd). exists (1 + n), s'. split; [|rewrite Hd; apply of_to_mio]. rewrite stepn_add, S1. exact Hn.
 Qed.
 
 (** ** The whole statement *)
@@ -360,9 +360,9 @@ Proof.
   intros st r t vs ps. cbn [Sem.exec].
   set (le := length (gen_expr e)) in *.
   destruct (eval e (vars st)) as [subject st0|x q] eqn:Ev.
-  2:{ destruct (gen_expr_error num_text is_negative e code pc0 r t vs ps (vars st) (screen st) false x q He Ev) as (k & s' & _ & Hs & Hd & _).
+  2:{ destruct (gen_expr_error num_text is_negative e code pc0 r t vs ps (vars st) (to_mio (screen st)) false x q He Ev) as (k & s' & _ & Hs & Hd & _). apply (f_equal of_mio) in Hd; rewrite ?of_to_mio in Hd.
       exists k, s'. split; assumption. }
-  destruct (gen_expr_value num_text is_negative e code pc0 r t vs ps (vars st) (screen st) false subject st0 He Ev) as [b1 Sc].
+  destruct (gen_expr_value num_text is_negative e code pc0 r t vs ps (vars st) (to_mio (screen st)) false subject st0 He Ev) as [b1 Sc].
   fold le in Sc. unfold after in Sc.
   assert (S1 : stepn (le + 1) code (boundary pc0 r t vs ps st)
                = MRunning (boundary (pc0 + le + 1) (mk_regs subject b1 (Machine.rc r) (Machine.rd r)) t (subject :: vs) ps (mk_state st0 (screen st)))).
